@@ -480,7 +480,7 @@ static void build(void)
   }
 }
 
-#define NAFTER 4
+#define NAFTER 12
 static long c02_n(int tier)
 {
   build();
@@ -555,13 +555,14 @@ static void c02_big(int which)
  * land in the caller's file, and closing the stream must not close it */
 static void c02_after_epipe(int which)
 {
-  int child_exits = which & 1, nonblocking = (which >> 1) & 1;
+  int child_exits = which & 1, nonblocking = (which >> 1) & 1, outk = which >> 2; /* stdout: pipe / the parent's / a handle of the caller */
   memset(&vk_cfg, 0, sizeof vk_cfg);
   vk_cfg.sched_on = 1;
   vk_cfg.sched_bound = 1;
   vk_cfg.vlimit = 24;
   vk_cfg.hello_lite = 1;
-  snprintf(key, sizeof key, "h_c02|write-after-reader-gone|%s|%s", child_exits ? "child-exited" : "child-closed-stdin", nonblocking ? "nonblocking" : "blocking");
+  snprintf(key, sizeof key, "h_c02|write-after-reader-gone|%s|%s|stdout=%s", child_exits ? "child-exited" : "child-closed-stdin", nonblocking ? "nonblocking" : "blocking",
+           outk == 0 ? "pipe" : outk == 1 ? "parent" : "handle");
   hx_desc("%s", key);
   snprintf(key, sizeof key, "h_c02|write-after-reader-gone");
   hx_begin();
@@ -575,6 +576,9 @@ static void c02_after_epipe(int which)
   reproc_options o;
   memset(&o, 0, sizeof o);
   o.nonblocking = nonblocking;
+  int outh = -1;
+  if (outk == 1) o.redirect.out.type = REPROC_REDIRECT_PARENT;
+  if (outk == 2) { outh = open("callers-stdout-target", O_WRONLY | O_CREAT | O_TRUNC, 0644); o.redirect.out.handle = outh; }
   vk_script(child_exits ? "X4 ;" : "C0 ; X4");
   P = hx_new();
   vk_cfg.sched_on = 0;
@@ -602,6 +606,7 @@ static void c02_after_epipe(int which)
   vk_cfg.sched_on = 0;
   hx_destroy(P);
   close(mine);
+  if (outh >= 0) close(outh);
 }
 
 /* ================================================================= C17 */
